@@ -623,7 +623,9 @@ class BaseProject(object, metaclass=ABCMeta):
 
                         # Facility sorting
                         free_facility_list = sort_facility_list(
-                            free_facility_list, task.facility_priority_rule
+                            free_facility_list,
+                            task.facility_priority_rule,
+                            name=task.name,
                         )
 
                         # candidate facilities
